@@ -150,7 +150,110 @@ fn deep_cases(ctx: &mut Ctx) {
 	}
 }
 
+/// A user type that overrides the PROVIDED `Decode::encoded_fixed_size` (a digest: always 32 bytes
+/// on the wire) and keeps its bytes on the heap: it nests one level, and holds 32 tracked bytes -
+/// whatever it reports about its encoded size.
+#[derive(PartialEq, Eq, Debug, Clone)]
+pub struct BoxedHash(pub Box<[u8; 32]>);
+impl Encode for BoxedHash {
+	fn encode_to<W: parity_scale_codec::Output + ?Sized>(&self, dest: &mut W) {
+		self.0.encode_to(dest)
+	}
+}
+impl Decode for BoxedHash {
+	fn decode<I: parity_scale_codec::Input>(input: &mut I) -> Result<Self, parity_scale_codec::Error> {
+		Ok(BoxedHash(<Box<[u8; 32]>>::decode(input)?))
+	}
+	fn encoded_fixed_size() -> Option<usize> {
+		Some(32)
+	}
+}
+impl parity_scale_codec::DecodeWithMemTracking for BoxedHash {}
+
+/// A user type whose decoder steps over a byte string it does not need (`Bytes::skip`).
+#[cfg(feature = "bytes-f")]
+#[derive(PartialEq, Eq, Debug, Clone)]
+pub struct SkipsBytes(pub u8, pub u16);
+#[cfg(feature = "bytes-f")]
+impl Decode for SkipsBytes {
+	fn decode<I: parity_scale_codec::Input>(input: &mut I) -> Result<Self, parity_scale_codec::Error> {
+		let a = u8::decode(input)?;
+		<bytes::Bytes as Decode>::skip(input)?;
+		let b = u16::decode(input)?;
+		Ok(SkipsBytes(a, b))
+	}
+}
+
+fn overriding_user_types(ctx: &mut Ctx) {
+	use parity_scale_codec::{DecodeWithMemLimit, MemTrackingInput};
+	let one: Vec<u8> = (0..32u8).collect();
+	let four: Vec<u8> = (0..128u8).collect();
+	// depth: BoxedHash nests 1; [BoxedHash; 4] nests 1; Vec<Box<[BoxedHash; 2]>> nests 3
+	let r = catch_unwind(AssertUnwindSafe(|| {
+		let mut vb = vec![2u8 << 2];
+		vb.extend_from_slice(&four);
+		(
+			BoxedHash::decode_with_depth_limit(0, &mut &one[..]).is_ok(),
+			BoxedHash::decode_with_depth_limit(1, &mut &one[..]).is_ok(),
+			<[BoxedHash; 4]>::decode_with_depth_limit(0, &mut &four[..]).is_ok(),
+			<[BoxedHash; 4]>::decode_with_depth_limit(1, &mut &four[..]).is_ok(),
+			<[BoxedHash; 9]>::decode_with_depth_limit(0, &mut &[four.clone(), four.clone(), one.clone()].concat()[..]).is_ok(),
+			<Vec<Box<[BoxedHash; 2]>>>::decode_with_depth_limit(2, &mut &vb[..]).is_ok(),
+			<Vec<Box<[BoxedHash; 2]>>>::decode_with_depth_limit(3, &mut &vb[..]).is_ok(),
+			<[BoxedHash; 4]>::decode_all_with_depth_limit(0, &mut &four[..]).is_ok(),
+			<Option<[BoxedHash; 2]>>::decode_with_depth_limit(0, &mut &[vec![1u8], four[..64].to_vec()].concat()[..]).is_ok(),
+		)
+	}));
+	if !matches!(r, Ok((false, true, false, true, false, false, true, false, false))) {
+		ctx.oracle_fail("C11", format!("a user type reporting `encoded_fixed_size` and holding a Box (alone / [_; 4] / [_; 9] / Vec<Box<[_; 2]>> / decode_all / in an Option) under depth limits one short and sufficient: {:?}", r.ok()));
+	}
+	// memory: U = 32 per hash; a limit L succeeds iff L > U
+	let r = catch_unwind(AssertUnwindSafe(|| {
+		(
+			BoxedHash::decode_with_mem_limit(&mut &one[..], 32).is_ok(),
+			BoxedHash::decode_with_mem_limit(&mut &one[..], 33).is_ok(),
+			BoxedHash::decode_with_mem_limit(&mut &one[..], 1).is_ok(),
+			<[BoxedHash; 4]>::decode_with_mem_limit(&mut &four[..], 128).is_ok(),
+			<[BoxedHash; 4]>::decode_with_mem_limit(&mut &four[..], 129).is_ok(),
+			{
+				let mut s = &four[..];
+				let mut m = MemTrackingInput::new(&mut s, 1000);
+				let ok = <[BoxedHash; 4]>::decode(&mut m).is_ok();
+				(ok, m.used_mem())
+			},
+			<(u8, BoxedHash)>::decode_with_mem_limit(&mut &four[..33], 32).is_ok(),
+		)
+	}));
+	if !matches!(r, Ok((false, true, false, false, true, (true, 128), false))) {
+		ctx.oracle_fail("C12", format!("a user type reporting `encoded_fixed_size` and holding 32 heap bytes, under memory limits at / above the tracked usage (alone 32|33|1, [_; 4] 128|129, used_mem, in a tuple): {:?}", r.ok()));
+	}
+	ctx.count("userext:overriding-types", 16);
+	// a decoder that steps over a `Bytes` it does not need: from a slice and out of a shared buffer
+	// (`decode_from_bytes`), complete and cut at every length
+	#[cfg(feature = "bytes-f")]
+	{
+		let mut full = vec![9u8];
+		full.extend_from_slice(&Compact(5u32).encode());
+		full.extend_from_slice(b"hello");
+		full.extend_from_slice(&[0x34, 0x12]);
+		for cut in 0..=full.len() {
+			let bs = &full[..cut];
+			let a = catch_unwind(AssertUnwindSafe(|| SkipsBytes::decode(&mut &bs[..]).ok()));
+			let b = catch_unwind(AssertUnwindSafe(|| parity_scale_codec::decode_from_bytes::<SkipsBytes>(bytes::Bytes::copy_from_slice(bs)).ok()));
+			let c = catch_unwind(AssertUnwindSafe(|| parity_scale_codec::decode_from_bytes::<(SkipsBytes, u8)>(bytes::Bytes::copy_from_slice(bs)).ok().map(|x| x.0)));
+			let want = if cut == full.len() { Some(SkipsBytes(9, 0x1234)) } else { None };
+			if !matches!((&a, &b), (Ok(x), Ok(y)) if *x == want && *y == want) || !matches!(&c, Ok(None)) {
+				let msg = format!("a decoder calling Bytes::skip, on the first {} of {} bytes: from a slice {:?}, with decode_from_bytes {:?} (expected {:?}); followed by one more field {:?} (expected a failure)", cut, full.len(), a.ok(), b.ok(), want, c.ok());
+				ctx.oracle_fail("C18", msg.clone());
+				ctx.oracle_fail("C08", msg);
+			}
+		}
+		ctx.count("userext:skips-bytes", full.len() as u64 + 1);
+	}
+}
+
 pub fn userext_stream(ctx: &mut Ctx) {
 	percent_cases(ctx);
 	deep_cases(ctx);
+	overriding_user_types(ctx);
 }
